@@ -20,7 +20,7 @@ _T = ("trace validation by TLC (AlgoMon.tla) of executions of the real computati
       "on TLC-generated instances (Gen_Dcop.tla)")
 _TM = ("TLC model checking of Mgm.tla (implementation-shaped model of MgmComputation: every start order, per-channel-FIFO delivery order "
        "and random draw on TLC-drawn instances) with replay of every explored transition on the real computations (full local-state "
-       "comparison); ") + _T + "; Judge_Hist.tla on the real computations' own reachable graph when they leave the model"
+       "comparison), the same with Dsa.tla for DsaComputation where DSA is in the property's scope; ") + _T + "; Judge_Hist.tla on the real computations' own reachable graph when they leave the model"
 _N = ("Trusted: TLC's evaluation of AlgoMon.tla/Dcop.tla, vlib/simrt.py (message plumbing only; its FIFO discipline is re-validated "
       "by AlgoMon's network clauses). Schedules are sampled (seeded, four policies), not exhausted, at this level.")
 CHECKS["C03"] = ("model_checking", _TM,
@@ -55,11 +55,11 @@ CHECKS["C10"] = ("exploration", _T,
     "Executions of all shipped algorithms (18 algorithm/parameter configurations) with every value_selection call and every current_value logged as a domain "
     "index; TLC checks membership at every step.", _N, "DESIGN.md section 4 C10")
 CHECKS["C06"] = ("model_checking",
-    "TLC-enumerated calls with results computed from Relations.tla (helpers); TLC trace validation (AlgoMon.tla) of real DSA / A-DSA executions (moves)",
+    "TLC-enumerated calls with results computed from Relations.tla (helpers); TLC trace validation (AlgoMon.tla) of real DSA / A-DSA executions (moves); TLC model checking of Dsa.tla (all schedules and draws) with replay of every transition on the real DsaComputation",
     "Part 1: TLC enumerates calls of find_optimal / find_arg_optimal / optimal_cost_value / projection over the cost algebra of Costs.tla (negative, > 2^31, "
     "+inf, -inf; own-cost dict and function variables; min and max) with the exact optimal value sets and costs; each is executed on the real functions. "
     "Part 2: executions of the real DSA (A, B, C) and A-DSA computations; at every change of value TLC checks that the new value is in ArgBestLocal computed "
-    "from the value messages of that evaluation.", _N, "DESIGN.md section 4 C06")
+    "from the value messages of that evaluation. Part 3: Dsa.tla (invariant MovesAreBestResponses) checked exhaustively on TLC-drawn instances and bound to the code by replay.", _N, "DESIGN.md section 4 C06")
 CHECKS["C11"] = ("model_checking",
     "TLC-enumerated relations x slicing walks with the expected slices (Gen_C11.tla/Relations.tla), executed on the real relation classes per PYTHONHASHSEED",
     "TLC enumerates relations of all eight kinds over ordered scopes (every declared order x textual/parameter order for expression and python-function "
